@@ -405,6 +405,11 @@ def emit_extract(gen, ex, repo_root, unit):
         return
 
     # ---- fn ----
+    if ex.opts.get('nobody') or getattr(ex, 'assumed', False):
+        # E8: a function that is only *assumed* (external_body) keeps its signature; the body is not copied, so that edits
+        # inside it can neither be seen nor break the build of the unit
+        item = item[:body_open - start] + '{ unimplemented!() }'
+        end = start + len(item)
     assumed = getattr(ex, 'assumed', False)
     if assumed:
         b0 = Block('head', '', ex.lineno)
